@@ -556,4 +556,40 @@ theorem F09a_witness (hash256 : Bytes → Bytes) (h : Bytes) (hl : h.length = 20
 /-- the two prefix lists: today's source and the repaired one -/
 theorem F09a_lists : segPrefixesAsIs = ["bc1", "tb1"] ∧ segPrefixesRepaired = ["bc1", "tb1", "bcrt1"] := ⟨rfl, rfl⟩
 
+/-! ## unique decodability (corollaries of the round trips) -/
+
+/-- Base58 is injective: one text, one byte string -/
+theorem base58_encode_injective (b₁ b₂ : Bytes) (s : Str) (h₁ : encodeBase58 b₁ = some s) (h₂ : encodeBase58 b₂ = some s) :
+    b₁ = b₂ := by
+  have a := base58_decode_encode b₁ s h₁
+  rw [base58_decode_encode b₂ s h₂] at a
+  exact (Option.some.inj a).symm
+
+/-- Base58Check is injective in the payload -/
+theorem base58check_injective (hash256 : Bytes → Bytes) (hh : ∀ b, 4 ≤ (hash256 b).length) (p₁ p₂ : Bytes) (s : Str)
+    (h₁ : encodeBase58Checksum hash256 p₁ = some s) (h₂ : encodeBase58Checksum hash256 p₂ = some s) : p₁ = p₂ := by
+  have a := base58check_roundtrip hash256 hh p₁ s h₁
+  rw [base58check_roundtrip hash256 hh p₂ s h₂] at a
+  exact (Option.some.inj a).symm
+
+/-- two different Base58Check texts never decode to the same payload (decoding is injective on
+    accepted strings) -/
+theorem base58check_decode_injective (hash256 : Bytes → Bytes) (hh : ∀ b, 4 ≤ (hash256 b).length) (s₁ s₂ : Str) (p : Bytes)
+    (h₁ : rawDecodeBase58 hash256 s₁ = some p) (h₂ : rawDecodeBase58 hash256 s₂ = some p) : s₁ = s₂ := by
+  have a := (base58check_accept_iff hash256 hh s₁ p).1 h₁
+  rw [(base58check_accept_iff hash256 hh s₂ p).1 h₂] at a
+  exact (Option.some.inj a).symm
+
+/-- segwit addresses: the text determines version and program (on one network) -/
+theorem bech32_encode_injective (net : Str) (hnet : KnownNet net) (v₁ v₂ : Nat) (hv₁ : v₁ ≤ 16) (hv₂ : v₂ ≤ 16)
+    (p₁ p₂ : Bytes) (hl₁ : 2 ≤ p₁.length ∧ p₁.length ≤ 40) (hl₂ : 2 ≤ p₂.length ∧ p₂.length ≤ 40) (s : Str)
+    (e₁ : encodeBech32Checksum (vbyte v₁ :: UInt8.ofNat p₁.length :: p₁) net = some s)
+    (e₂ : encodeBech32Checksum (vbyte v₂ :: UInt8.ofNat p₂.length :: p₂) net = some s) : v₁ = v₂ ∧ p₁ = p₂ := by
+  obtain ⟨t₁, a₁, d₁⟩ := bech32_roundtrip net hnet v₁ hv₁ p₁ hl₁
+  obtain ⟨t₂, a₂, d₂⟩ := bech32_roundtrip net hnet v₂ hv₂ p₂ hl₂
+  rw [e₁] at a₁; rw [e₂] at a₂; cases a₁; cases a₂
+  rw [d₂] at d₁
+  have := Option.some.inj d₁
+  simp only [Prod.mk.injEq] at this
+  exact ⟨this.2.1.symm, this.2.2.symm⟩
 end Buidl.Props.C09
